@@ -1,6 +1,228 @@
 /-
-C06 — Held tasks never submit; holds persist and apply to future instances.  (under construction)
+C06 — Held tasks never submit; holds persist and apply to future instances.
+
+Statements over the `Sched2` model (scheduler core with holds, hold point, stop modes and clean restart), for
+every instance graph `g` — no well-formedness hypothesis on `g` is needed — and every operation / op list.
+Proofs are by reference to `SchedLemmasC06` (one lemma per primitive of the model, lifted over op lists).
+
+Property text → theorems
+* "a held instance never enters job preparation until it is released"
+    `held_not_ready`, `release_skips_held`, `launch_only_in_main_loop`, `held_never_prepared`,
+    `held_never_prepared_run`
+* "holding an instance that is not yet in the pool takes effect when it spawns"
+    `hold_command_recorded`, `hold_kept_until_released_or_removed`, `future_hold`, `hold_table_exact`,
+    `hold_point_command`
+* "the set of held instances and the hold point survive a restart"
+    `hold_persist`, `hold_persist_partial`; the unrestricted statement `hold_persist_full` is FALSE for the
+    model (and for cylc-flow, finding `rehold-after-restart`): `hold_persist_counterexample`.
+The model has no manual trigger, so the "or manually triggered" exemption of the property has no counterpart.
 -/
-import CylcModel.Sched2
+import CylcModel.SchedLemmasC06
 namespace CylcModel.C06
+open CylcModel.Sched2
+
+/-! ### held ⇒ never prepared -/
+
+/-- **A held proxy is not ready to run** and the queue-if-ready step leaves the state alone for it. -/
+theorem held_not_ready (s : State) (x : Proxy) (h : x.held = true) :
+    x.isReadyToRun = false ∧ queueIfReady s x = s := by
+  have h1 : x.isReadyToRun = false := by simp [Proxy.isReadyToRun, h]
+  exact ⟨h1, by simp [queueIfReady, h1]⟩
+
+/-- **Job release skips held proxies**: every launch recorded by the release-and-submit step of a main loop
+belongs to a proxy of the pool that is queued and *not held*, under its next submit number. -/
+theorem release_skips_held (s : State) (l : Int × String × Nat)
+    (h : l ∈ (releaseAndSubmit s).launched) (h0 : l ∉ s.launched) :
+    ∃ x ∈ s.pool, x.pt = l.1 ∧ x.name = l.2.1 ∧ x.submitNum + 1 = l.2.2 ∧ x.queued = true ∧ x.held = false :=
+  releaseAndSubmit_launch_not_held s l h h0
+
+/-- **Jobs are launched by main loops only**: no command, job message, submit result or restart launches one. -/
+theorem launch_only_in_main_loop (g : Graph) (s : State) (op : Op) (h : op ≠ .loop) :
+    (step g s op).launched = [] :=
+  launched_step_of_ne_loop g s op h
+
+/-- **Held ⇒ never prepared** (any state, any operation): if the instance `(p, n)` is in the pool and held —
+every proxy of that key has the held flag — then the operation launches no job for it, under any submit number. -/
+theorem held_never_prepared (g : Graph) (s : State) (op : Op) (p : Int) (n : String)
+    (hin : ∃ x ∈ s.pool, x.pt = p ∧ x.name = n)
+    (hheld : ∀ x ∈ s.pool, x.pt = p → x.name = n → x.held = true) :
+    ∀ sn, (p, n, sn) ∉ (step g s op).launched :=
+  fun sn => step_held_no_launch g s op p n ⟨hin, hheld⟩ sn
+
+/-- **Held ⇒ never prepared, along every run**: in the state reached by any op list, a pooled proxy with the held
+flag is not launched by the next operation, whatever that is (a release command un-holds it but launches nothing;
+a later main loop may then launch it). -/
+theorem held_never_prepared_run (g : Graph) (ops : List Op) (op : Op) :
+    ∀ x ∈ (final g ops).pool, x.held = true →
+      ∀ sn, (x.pt, x.name, sn) ∉ (final g (ops ++ [op])).launched := by
+  intro x hx hh sn
+  rw [final_snoc]
+  exact step_held_no_launch g _ op x.pt x.name (keyHeld_of_holdInv (holdInv_final g ops) hx hh) sn
+
+/-! ### holds apply to future instances -/
+
+/-- **A hold command records every id it is given**, pooled or not; pooled ones are held at once (given the
+hold-table invariant, which every reachable state has: `hold_table_exact`). -/
+theorem hold_command_recorded (g : Graph) (s : State) (ids : List (Int × String)) (hinv : HoldInv s) :
+    ∀ k ∈ ids, (k.2, k.1) ∈ (step g s (.hold ids)).tasksToHold ∧
+      ∀ x ∈ (step g s (.hold ids)).pool, x.pt = k.1 → x.name = k.2 → x.held = true := by
+  intro k hk
+  have hm : (k.2, k.1) ∈ (step g s (.hold ids)).tasksToHold := holdTasks_mem (clearOp s) ids k hk
+  refine ⟨hm, fun x hx hp hn => ?_⟩
+  have := holdInv_step (g := g) (.hold ids) hinv x hx
+  rw [this, hn, hp]
+  simpa using hm
+
+/-- **A recorded hold stays recorded** through every operation other than a release command, unless the instance
+is removed from the pool in that very operation (then it is among the proxies removed by the operation). -/
+theorem hold_kept_until_released_or_removed (g : Graph) (s : State) (op : Op)
+    (hop : (∀ ids, op ≠ .release ids) ∧ op ≠ .releaseHoldPoint) :
+    ∀ k ∈ s.tasksToHold, k ∈ (step g s op).tasksToHold ∨ ∃ x ∈ (step g s op).ghosts, (x.name, x.pt) = k :=
+  keeps_step g s op hop
+
+/-- **Future hold** (`spawn_task`): a newly created proxy is held *exactly* when a hold was requested earlier for
+its instance or the instance lies beyond the hold point; in the latter case the instance is entered in the hold
+table; nothing else of the state changes. -/
+theorem future_hold (g : Graph) (s : State) (n : String) (p : Int) (y : Proxy)
+    (h : (spawnTask g s n p).2 = some y) :
+    y.pt = p ∧ y.name = n ∧
+    y.held = (s.tasksToHold.contains (n, p) || beyondHold s.holdPoint p) ∧
+    (spawnTask g s n p).1 = { s with tasksToHold := holdTableAfterSpawn s n p } :=
+  spawnTask_some h
+
+/-- **The hold table is exact, in every state of every run**: a pooled proxy is held if and only if its instance
+is in `tasksToHold`.  In particular an instance held while it was not in the pool is held from the moment it is. -/
+theorem hold_table_exact (g : Graph) (ops : List Op) :
+    ∀ s ∈ run g ops, ∀ x ∈ s.pool, x.held = s.tasksToHold.contains (x.name, x.pt) :=
+  holdInv_run g ops
+
+/-- **Hold point command**: afterwards the hold point is set and every pooled proxy beyond it is held. -/
+theorem hold_point_command (g : Graph) (s : State) (p : Int) :
+    (step g s (.setHoldPoint p)).holdPoint = some p ∧
+      ∀ y ∈ (step g s (.setHoldPoint p)).pool, y.pt > p → y.held = true :=
+  setHoldPoint_holds (clearOp s) p
+
+/-! ### holds and restart -/
+
+/-- **Holds survive a restart** (exact statement for the model, all states): the hold point is kept; every
+recorded hold is kept, and the only new entries are pooled instances beyond the hold point; every proxy is
+still there with its held flag — or is now held because it lies beyond the hold point (`configure` re-applies
+`set_hold_point` after the pool is loaded). -/
+theorem hold_persist (g : Graph) (s : State) :
+    (restart g s).holdPoint = s.holdPoint ∧
+    (∀ k ∈ s.tasksToHold, k ∈ (restart g s).tasksToHold) ∧
+    (∀ k ∈ (restart g s).tasksToHold, k ∈ s.tasksToHold ∨
+      ∃ x ∈ s.pool, k = (x.name, x.pt) ∧ beyondHold s.holdPoint x.pt = true) ∧
+    (∀ x ∈ s.pool, ∃ y ∈ (restart g s).pool, y.pt = x.pt ∧ y.name = x.name ∧
+      (y.held = x.held ∨ (beyondHold s.holdPoint x.pt = true ∧ y.held = true))) ∧
+    (∀ y ∈ (restart g s).pool, ∃ x ∈ s.pool, x.pt = y.pt ∧ x.name = y.name ∧
+      (y.held = x.held ∨ (beyondHold s.holdPoint y.pt = true ∧ y.held = true))) :=
+  ⟨restart_holdPoint g s, (restart_table g s).1, (restart_table g s).2, restart_pool_before g s,
+   restart_pool_after g s⟩
+
+/-- the unrestricted reading of "the set of held instances survives a restart": along every run, a restart changes
+the held flag of no pooled instance -/
+def hold_persist_full : Prop :=
+  ∀ (g : Graph) (ops : List Op), ∀ x ∈ (final g ops).pool, ∀ y ∈ (final g (ops ++ [.restart])).pool,
+    y.pt = x.pt → y.name = x.name → y.held = x.held
+
+/-- **Partial**: the held flags (and the hold table, as a set) are exactly preserved by a restart of a state in
+which no pooled instance beyond the hold point has been released individually. -/
+theorem hold_persist_partial (g : Graph) (s : State) (hinv : HoldInv s)
+    (hbeyond : ∀ x ∈ s.pool, beyondHold s.holdPoint x.pt = true → x.held = true) :
+    (∀ x ∈ s.pool, ∀ y ∈ (restart g s).pool, y.pt = x.pt → y.name = x.name → y.held = x.held) ∧
+    (∀ k, k ∈ (restart g s).tasksToHold ↔ k ∈ s.tasksToHold) := by
+  have htab : ∀ k, k ∈ (restart g s).tasksToHold ↔ k ∈ s.tasksToHold := by
+    intro k
+    constructor
+    · intro hk
+      rcases (restart_table g s).2 k hk with h | ⟨x, hx, rfl, hb⟩
+      · exact h
+      · have := hinv x hx
+        rw [hbeyond x hx hb] at this
+        simpa using this.symm
+    · exact (restart_table g s).1 k
+  refine ⟨fun x hx y hy hp hn => ?_, htab⟩
+  -- both flags are read off the (equal) hold tables
+  have hy' := holdInv_restart (g := g) hinv y hy
+  have hx' := hinv x hx
+  rw [hy', hx', hp, hn]
+  cases h1 : (restart g s).tasksToHold.contains (x.name, x.pt) <;>
+    cases h2 : s.tasksToHold.contains (x.name, x.pt) <;> simp_all
+
+/-! ### a concrete workflow for the non-vacuity examples and the counterexample -/
+
+/-- `a` runs in cycles 1..3 (no prerequisites), `b` in the same cycles after `a:started`; runahead `P1` -/
+def exGraph : Graph :=
+  let outs : List OutDef := [⟨"submitted", "submitted"⟩, ⟨"started", "started"⟩, ⟨"succeeded", "succeeded"⟩]
+  let aInst (p : Int) (nx : Option Int) : Int × InstDef :=
+    (p, { pre := [], sui := [], children := [("started", [⟨"b", p, false⟩])], nextParentless := nx })
+  let bInst (p : Int) : Int × InstDef :=
+    (p, { pre := [{ atoms := [(⟨p, "a", "started"⟩, false)], expr := none }], sui := [], children := [],
+          nextParentless := none })
+  { icp := 1, fcp := 3, start := 1, runahead := 1, seqs := [[1, 2, 3]], stopPoint := some 3,
+    tasks := [
+      { name := "a", insts := [aInst 1 (some 2), aInst 2 (some 3), aInst 3 none], firstParentless := some 1,
+        completion := CE.var "succeeded", outputs := outs },
+      { name := "b", insts := [bInst 1, bInst 2, bInst 3], firstParentless := none,
+        completion := CE.var "succeeded", outputs := outs }] }
+
+def view (s : State) : List (Int × String × Status × Bool) := s.pool.map fun x => (x.pt, x.name, x.status, x.held)
+
+-- the pool after start-up: 1/a and 2/a released, 3/a runahead-limited; without a hold the first main loop
+-- launches 1/a and 2/a ...
+example : view (final exGraph []) = [(1, "a", .waiting, false), (2, "a", .waiting, false), (3, "a", .waiting, false)] ∧
+    (final exGraph [.loop]).launched = [(1, "a", 1), (2, "a", 1)] := by decide +kernel
+
+-- ... with 1/a held (pooled: the hypotheses of `held_never_prepared` are met) only 2/a is launched,
+-- and after the release the next main loop launches 1/a
+example :
+    view (final exGraph [.hold [(1, "a")]]) =
+      [(1, "a", .waiting, true), (2, "a", .waiting, false), (3, "a", .waiting, false)] ∧
+    (final exGraph [.hold [(1, "a")], .loop]).launched = [(2, "a", 1)] ∧
+    (final exGraph [.hold [(1, "a")], .loop, .release [(1, "a")], .loop]).launched = [(1, "a", 1)] := by
+  decide +kernel
+
+-- future hold: 1/b is held before it exists (`hold_command_recorded`, not pooled) and is held when `a:started`
+-- spawns it (`future_hold` with the first disjunct, `hold_table_exact`)
+example :
+    (final exGraph [.hold [(1, "b")]]).tasksToHold = [("b", 1)] ∧
+    view (final exGraph [.hold [(1, "b")], .loop, .subres 1 "a" true 1, .msg 1 "a" 1 "started", .loop]) =
+      [(1, "a", .running, false), (2, "a", .preparing, false), (3, "a", .waiting, false), (1, "b", .waiting, true)] := by
+  decide +kernel
+
+-- hold point: 2/a and 3/a are beyond hold point 1 and are held by the command (`hold_point_command`); 2/a is then
+-- released individually, runs, and the 2/b it spawns is held at once: it lies beyond the hold point
+-- (`future_hold` with the second disjunct) and is entered in the hold table
+example :
+    view (final exGraph [.setHoldPoint 1]) =
+      [(1, "a", .waiting, false), (2, "a", .waiting, true), (3, "a", .waiting, true)] ∧
+    view (final exGraph [.setHoldPoint 1, .release [(2, "a")], .loop, .subres 2 "a" true 1,
+        .msg 2 "a" 1 "started", .loop]) =
+      [(1, "a", .preparing, false), (2, "a", .running, false), (3, "a", .waiting, true), (2, "b", .waiting, true)] ∧
+    (final exGraph [.setHoldPoint 1, .release [(2, "a")], .loop, .subres 2 "a" true 1,
+        .msg 2 "a" 1 "started", .loop]).tasksToHold = [("a", 3), ("b", 2)] := by
+  decide +kernel
+
+/-- the history of the counterexample: hold point 1, then 2/a (beyond it) is released individually, stop now -/
+def exOps : List Op := [.setHoldPoint 1, .release [(2, "a")], .stop "REQUEST(NOW)", .loop]
+
+-- holds in force survive the restart (`hold_persist`, `hold_persist_partial` apply: hold point 1; 2/a, 3/a held;
+-- a hold for the future 1/b)
+example :
+    view (final exGraph [.setHoldPoint 1, .hold [(1, "b")], .stop "REQUEST(NOW)", .loop, .restart]) =
+      [(1, "a", .waiting, false), (2, "a", .waiting, true), (3, "a", .waiting, true)] ∧
+    (final exGraph [.setHoldPoint 1, .hold [(1, "b")], .stop "REQUEST(NOW)", .loop, .restart]).tasksToHold =
+      [("a", 2), ("a", 3), ("b", 1)] ∧
+    (final exGraph [.setHoldPoint 1, .hold [(1, "b")], .stop "REQUEST(NOW)", .loop, .restart]).holdPoint = some 1 := by
+  decide +kernel
+
+/-- **The unrestricted statement is false** (model and cylc-flow alike, finding `rehold-after-restart`): with hold
+point 1, `release 2/a`, stop, restart — 2/a was not held before the restart and is held after it. -/
+theorem hold_persist_counterexample : ¬ hold_persist_full := by
+  intro h
+  have := h exGraph exOps
+  revert this
+  decide +kernel
+
 end CylcModel.C06
